@@ -15,11 +15,18 @@
 //	          writes, Subscribe + PushUpdate, InsertValue, SetAbsoluteExpiry,
 //	          SetRelativateExpiry, MakeSecret, MakeCrownJewel, Put, PutNew, Delete, Purge,
 //	          PutMany, and api.DatabaseAPI.Handle get/query/sub/qsub/create/update/insert/delete
+//	records   record.Wrapper and a struct record; key directly in the cell's directory or one
+//	          level deeper
+//	histories one access, and every non-feed access followed by every access of the same
+//	          reader (same interface / same API connection)
+//	thorough  also: badger, the reader's Always* options, two-access histories for all
+//	          cache settings, record types and key depths
 //
 // Every cell is one history on the real code: privileged write(s) -> [reader
-// pre-access] -> marking -> access under test -> privileged read-back + raw
-// storage dump. Each cell has its own key directory, so that cells are
-// independent of each other and can run in parallel on the shared databases.
+// pre-access] -> marking -> [first access] -> access under test -> privileged
+// read-back + raw storage dump. Each cell has its own key directory, so that cells
+// are independent of each other and can run in parallel on the shared databases
+// (cells on one hashmap database run one after the other, see backend.serial).
 //
 // Oracle, for a reader that lacks the privilege the marks require
 // (secret needs Internal, crown jewel needs Local):
